@@ -222,6 +222,36 @@ def has_star(call, name):
     return any(k.arg is None and U(k.value) == name for k in call.keywords)
 
 
+def check_super_forwarding(ctx: Ctx, rule="FORWARD"):
+    """A tracker method that extends its parent's (`initialize`, `finalize`, `handle`) hands every parameter it received on to
+    `super().<same method>(…)`: a dropped `info` makes TrackerBase.initialize lay out the interrupts from t = 0 instead of
+    the simulation's start time, so the tracker's times differ from the stored ones."""
+    m = ctx.model
+    n = 0
+    for ci in m.classes.values() if hasattr(m, "classes") else []:
+        pass
+    for fi in m.all_functions():
+        if fi.module.name != TRK or fi.cls is None or fi.name.startswith("__") or fi.parent is not None:
+            continue
+        sup = [c for c in ast.walk(fi.node) if isinstance(c, ast.Call) and isinstance(c.func, ast.Attribute) and c.func.attr == fi.name
+               and isinstance(c.func.value, ast.Call) and U(c.func.value.func) == "super"]
+        if not sup:
+            continue
+        params = [p_ for p_ in fi.all_params if p_ != "self"]
+        for c in sup:
+            passed = set()
+            for a in c.args:
+                passed |= names_in(a)
+            for k in c.keywords:
+                passed |= names_in(k.value)
+            missing = [p_ for p_ in params if p_ not in passed]
+            n += 1
+            ctx.decide(not missing, rule, f"{fi.qualname}:super", (fi, c), f"super().{fi.name} receives every parameter {params}",
+                       f"`{U(c)}` does not pass {missing} on to the parent's {fi.name}: the parent falls back to its default (without `info`, TrackerBase.initialize starts the interrupts at t = 0 instead of "
+                       "the simulation's start time, so the tracker handles other times than the storage of the same run)")
+    return n
+
+
 def check_length_tracker(ctx: Ctx):
     m = ctx.model
     init, stored = stored_options(ctx, f"{TRK}.LengthScaleTracker")
@@ -366,6 +396,7 @@ def check(ctx: Ctx):
     from ..rules import collections as _col
 
     _col.check_instance_containers(ctx, ("LengthScaleTracker", "EmulsionTimeCourse"), rule="OWN")
+    check_super_forwarding(ctx)
     ctx.expect("PARMAP", 6)
     ctx.expect("FORWARD", 15)
     ctx.expect("PIPE", 7)
